@@ -220,6 +220,17 @@ def run(tier, seed, only=None):
     groups.wiring_check(rep, lambda: SpatialBeamSetup(surface=st), "SpatialBeamSetup(tube)", fam, timeout)
     groups.wiring_check(rep, lambda: SpatialBeamSetup(surface=sw), "SpatialBeamSetup(wingbox)", fam, timeout)
     groups.wiring_check(rep, lambda: AerostructGeometry(surface=st), "AerostructGeometry(tube)", fam, timeout)
+    # the structure-only model: element masses, nodes and load factor of the set-up reach the inertial load components
+    from openaerostruct.structures.struct_groups import SpatialBeamAlone
+    from symoas.sym import bor, gt, lt
+
+    sa = dict(st, struct_weight_relief=True, n_point_masses=1)
+
+    def big_loads(ins):
+        return [bor(gt(x, 1e-6), lt(x, -1e-6)) for x in ins["total_loads"].ravel()]
+
+    groups.wiring_check(rep, lambda: SpatialBeamAlone(surface=sa), "SpatialBeamAlone(tube, weight relief, point masses)", fam, timeout,
+                        assume_for={"CreateRHS": big_loads}, abstract=("total_loads.total_loads", "vonmises.vonmises"))
     rep.bounds = {"ny": [c[1] for c in cfgs(tier)], "point_masses": "1 (quick), 1-2 (thorough, two only on the ny = 2 beam)"}
     rep.assumptions = ["real arithmetic", "g = 9.80665", "moment reference point p symbolic"]
     return rep.finish("C16: mass / cg / load-sum / moment-sum identities against first-principles sums on symbolic nodes, areas, masses")
